@@ -160,7 +160,8 @@ func CheckC04(m *Model, events []sched.Event, cycle int, st *Stats) []run.Violat
 			// first-pod exception under the most favourable reading
 			anyDefinite := false
 			for _, q := range present {
-				if q.pod.UID != p.UID && k8sm.TermMatchesPod(term, p.Namespace, q.pod) {
+				// the upstream filter counts matching pods only on nodes that carry the topology key
+				if _, keyed := domainVal(q.node, term.TopologyKey); keyed && q.pod.UID != p.UID && k8sm.TermMatchesPod(term, p.Namespace, q.pod) {
 					anyDefinite = true
 				}
 			}
